@@ -131,6 +131,28 @@ func (ex *Exec) assume(c *Term) {
 	}
 	ex.pc = append(ex.pc, c)
 	ex.sol.Assert(c)
+	ex.learn(c)
+}
+
+// learn records simple syntactic facts from assumptions (x does not contain a literal).
+func (ex *Exec) learn(c *Term) {
+	if c.Op == "and" {
+		for _, a := range c.Args {
+			ex.learn(a)
+		}
+		return
+	}
+	if c.Op == "not" && c.Args[0].Op == "seq.contains" && c.Args[0].Args[1].IsLit() {
+		ex.memo["nocontain:"+c.Args[0].Args[0].String()+"|"+c.Args[0].Args[1].S] = tTrue
+	}
+}
+
+func (ex *Exec) knownNoContain(x *Term, sep string) bool {
+	if x.IsLit() {
+		return !strings.Contains(x.S, sep)
+	}
+	_, ok := ex.memo["nocontain:"+x.String()+"|"+sep]
+	return ok
 }
 
 // feasible: is pc ∧ c satisfiable?  "unknown" counts as feasible.
